@@ -1,6 +1,6 @@
 (* C11 property theorems only. *)
 From Coq Require Import List NArith Bool Arith.
-From Verif Require Import C11.Model_C11 C11.Proofs_C11.
+From Verif Require Import C11.Model_C11 C11.Proofs_C11 C11.ModelS_C11 C11.ProofsS_C11.
 Import ListNotations.
 
 (* For every configuration, every behaviour of the operations, every number of workers and EVERY
@@ -58,6 +58,29 @@ Theorem C11_status_at_least_worst : forall c sched n os,
     final_status s <> SKIP /\ srank st <= srank (final_status s).
 Proof. exact status_at_least_worst. Qed.
 Print Assumptions C11_status_at_least_worst.
+
+(* Stateful phase (one producer thread, any event type, any script of events, every interleaving): what the stream
+   yields is a prefix of what the thread produced - nothing invented, duplicated or reordered - and with the present
+   exit test nothing is lost once the consumer is done.  The behaviour before the fix is refuted by a schedule. *)
+Theorem C11_stateful_trace_is_prefix : forall (E : Type) fix_ (script : list E) sched,
+  exists rest, script = strace E (srun E fix_ sched (sinit E script)) ++ rest.
+Proof. exact stateful_trace_is_prefix. Qed.
+Print Assumptions C11_stateful_trace_is_prefix.
+
+Theorem C11_stateful_nothing_lost : forall (E : Type) (script : list E) sched,
+  let s := srun E true sched (sinit E script) in
+  s_cp s = SDone -> strace E s = script.
+Proof. exact stateful_nothing_lost. Qed.
+Print Assumptions C11_stateful_nothing_lost.
+
+Theorem C11_stateful_before_fix_refuted : exists sched (script : list nat),
+  let s := srun nat false sched (sinit nat script) in
+  s_cp s = SDone /\ strace nat s <> script.
+Proof.
+  exists [LS; LC; LC; LS; LS; LC; LC], [1; 2]. destruct stateful_lost_before_fix as [H1 H2].
+  split; [exact H1|]. rewrite H2. discriminate.
+Qed.
+Print Assumptions C11_stateful_before_fix_refuted.
 
 (* Plan level: one start first, exactly one finish last, phases opened and closed once, in order,
    whatever each phase did and wherever the run was stopped. *)
